@@ -1,5 +1,6 @@
 import PyImpSpec.Registry
 import PyImpSpec.Cdc.SymProof
+import PyImpSpec.Cdc.TextRT
 
 /-! # C15 — the element registry and class defaults can always be restored
 
@@ -356,6 +357,27 @@ theorem registered_symbols_tokenize (st : State) (ops : List Op) (h : SymsOk st)
     exact validSymbol_shape k (hv _ hc)
   rw [Cdc.tokenize_symbols _ hs]
   simp [Cdc.identTok, String.ofList_toList]
+
+/-- **The parser recognises exactly the symbols of its table.** For every well-formed symbol `k` (and every registered symbol is
+well-formed after any history: `symbols_always_valid`) and every element table - whatever prefixes or extensions of `k` it
+contains - `parse_cdc(k)` succeeds if and only if `k` is in the table; when it is not, the error is `InvalidElementSymbol`. -/
+theorem parser_accepts_iff_registered (tbl : List Cdc.ElemDef) (k : String) (hv : Cdc.ValidSym k.toList) :
+    (∃ c, Cdc.parseCdc tbl Cdc.fixedFlags k = .ok c) ↔ (tbl.find? (fun d => d.sym = k)).isSome = true := by
+  constructor
+  · rintro ⟨c, hc⟩
+    cases hf : tbl.find? (fun d => d.sym = k) with
+    | some d => rfl
+    | none => rw [Cdc.parseCdc_unregistered tbl k hv hf] at hc; cases hc
+  · intro h
+    have hr : String.ofList (Cdc.renderT (.leaf k)) = k := by
+      simp [Cdc.renderT, Cdc.printT, Cdc.chars, Cdc.tkOf, String.ofList_toList]
+    have := Cdc.parseCdc_renderT tbl (.leaf k) (by simpa [Cdc.Printable] using h) hv
+    rw [hr] at this
+    exact ⟨_, this⟩
+
+theorem unregistered_symbol_error (tbl : List Cdc.ElemDef) (k : String) (hv : Cdc.ValidSym k.toList)
+    (hn : tbl.find? (fun d => d.sym = k) = none) : Cdc.parseCdc tbl Cdc.fixedFlags k = .error (.lib "InvalidElementSymbol") :=
+  Cdc.parseCdc_unregistered tbl k hv hn
 
 /-- the statement does not depend on registration at all: any symbols of the valid shape -/
 theorem symbols_tokenize (syms : List (List Char)) (h : ∀ x ∈ syms, Cdc.ValidSym x) :
